@@ -239,8 +239,7 @@ def gen_cases(c, level, focus=None):
   else:
     cases.append(designer_case('gp_bandit', gp_seed, GP_PROBLEM, [], {}))
     cases.append(designer_case('gp_bandit', 0, gen_problem(rng, ['double', 'dlog', 'int', 'cat']), gen_prefix(rng, GP_PROBLEM, 0), {'small': True}))
-    cases.append(designer_case('gp_ucb_pe', gp_seed, GP_PROBLEM, [], {}))
-    cases.append(designer_case('gp_ucb_pe', 0, GP_PROBLEM, gen_prefix(rng, GP_PROBLEM, 3), {'small': True}))
+    cases.append(designer_case('gp_ucb_pe', gp_seed, GP_PROBLEM, gen_prefix(rng, GP_PROBLEM, rng.choice([0, 2])), {}))
     cases.append(benchmark_case('gp_bandit', gp_seed, GP_PROBLEM, 5, opts={'small': True}, repeats=1))
   if focus:
     cases = [x for x in cases if x['designer'] in focus]
